@@ -411,15 +411,15 @@ def _schedules(ctx) -> None:
         for ai, api in enumerate(ALL_APIS):
             if quick and (wi + ai) % 2 == 1:
                 continue
-            if quick and api in FILTERED_APIS and (wi + ai) % 4 != 0:
-                continue
+            if api in FILTERED_APIS and (wi + ai) % (4 if quick else 2) != 0:
+                continue        # the filtered paths differ from the unfiltered ones only in the schema resolution / pruning
             reader_ops = [{"kind": "read", "apis": [api, ALL_APIS[(ai + 1) % len(ALL_APIS)]]}]
             ops = writers + reader_ops
             case = {"ops": ops, "clock": "tick", "topology": "separate", "yield_filter": reader_filter, "track_states": True,
                     "injectors": {i: (lambda k=op["fault"]: fault_injector(k)) for i, op in enumerate(ops) if op.get("fault")}}
             readers = [len(writers)]
             runs = []
-            for dev, res in c01.explore(ctx, case, 2, 14 if quick else 150):
+            for dev, res in c01.explore(ctx, case, 2, 14 if quick else (60 if api in FILTERED_APIS else 150)):
                 runs.append((dev, res))
             for k in range(3 if quick else 25):
                 seed = ctx.rng.randrange(1 << 30)
